@@ -231,6 +231,23 @@ CLAIMED = {
         technique="Lean 4 decision-logic and path analysis on a regenerated machine; symbolic transcript model; lattice + byte-flip correspondence",
         design="DESIGN.md §5 C03",
     ),
+    "C19": dict(
+        text="Lean 4 theorems (AQ.Props.C19) over ALL interleavings of atomic callbacks (datagram_received / timer / transmit / "
+             "transmit_soon / application coroutines / server datagram / cid issued+retired / terminated, with the QUIC events of a "
+             "callback as inputs constrained only by C01/C09): no waiter completed twice, every completion is success or "
+             "ConnectionError, after ConnectionTerminated (resp. HandshakeCompleted) every waiter started before OR after is "
+             "completed exactly once; reader bytes = concatenated StreamDataReceived data then EOF once; timer/transmit-task "
+             "bookkeeping exact; routing table invariant (every issued-not-retired CID of a live connection routed, nothing for "
+             "terminated ones); connection state under retry only for a token sealed for that address; counterexample theorems for "
+             "the pre-fix schedules. Tie: real QuicConnectionProtocol/QuicServer over a scripted connection (exhaustive depth-3/4 "
+             "step sequences) and over real connections on a virtual-time event loop with an adversarial in-memory network and a "
+             "forged-token adversary; every callback replayed on the model; oracle from the property text.",
+        note="Trusted: Lean kernel; standard axioms; harness/vloop.py (virtual-time SelectorEventLoop) and impl_adapter.py; asyncio "
+             "callbacks are atomic; ghost assumption monitors (unique waiter ids, event-order guarantees of C01/C09, unforgeable "
+             "retry-token seal) are hypotheses; receive_datagram/handle_timer/datagrams_to_send do not raise (C05/C16).",
+        technique="Lean 4 invariants over all schedules of atomic steps; callback-level differential correspondence on a virtual-time loop",
+        design="DESIGN.md §5 C19",
+    ),
 }
 NOT_YET = "machinery for this property is still under construction in this round (model/proofs/correspondence incomplete); not claimed"
 
